@@ -133,7 +133,8 @@ fn writer_phase(s: &C14, obs: &Rc<RefCell<Obs>>) -> Result<Written, Violation> {
     let n = s.items.len() as u64;
     let total: u64 = payloads.iter().flatten().map(|p| p.len() as u64 + 4).sum();
     // a benign write_all takes one call per frame; scripted short writes at most one extra call per lane step
-    let budget = s.w_sink.len() as u64 + 4 * (n + 1) + 16 + total.min(0);
+    // implementation-agnostic: even a writer that offered one byte per call would stay below this
+    let budget = s.w_sink.len() as u64 + 8 * (n + 1) + 64 + 2 * total;
     let core = SinkCore::new(s.w_sink.clone(), None, budget, obs.clone());
     core.borrow_mut().allow_fatal = s.w_fatal;
     {
@@ -393,7 +394,8 @@ impl<'a> FamVisitor for RVisit<'a> {
 
         // ---- world
         let n = expected.len() as u64;
-        let budget = s.r_src.len() as u64 + 4 * (n + 2) + 16;
+        // implementation-agnostic: even a reader that asked for one byte per call would stay below this
+        let budget = s.r_src.len() as u64 + 8 * (n + 2) + 64 + 2 * stream.len() as u64;
         let core = SrcCore::new(stream.clone(), s.r_src.clone(), layout, budget, obs.clone());
         core.borrow_mut().allow_fatal = s.r_fatal;
         core.borrow_mut().scribble = s.scribble;
@@ -903,8 +905,9 @@ impl Property for P14 {
         let big = r.chance(1, if tier == Tier::Thorough { 40 } else { 400 });
         let max_frames = if tier == Tier::Thorough && r.chance(1, 4) { 20 } else { 8 };
         let max_frames = if tier == Tier::Thorough && r.chance(1, 4) { 20 } else { 8 };
-    let nitems = if big { r.range(1, 2) } else { 1 + r.below(max_frames) } as usize;
-        let profile = r.below(4);
+    let marathon = !big && r.chance(1, 150);
+    let nitems = if big { r.range(1, 2) } else if marathon { r.range(257, 600) } else { 1 + r.below(max_frames) } as usize;
+        let profile = if marathon { 0 } else { r.below(4) };
         let en_poison = r.chance(1, 3);
         let en_hostile = r.chance(1, 6);
         let en_fail = r.chance(1, 5);
